@@ -310,10 +310,7 @@ class SQLiteTrigger(BaseTrigger):
             row = cursor.fetchone()
             cursor.close()
             current = datetime.fromisoformat(row[0]) if row and row[0] else None
-            if (
-                expected_last_execution is not None
-                and current != expected_last_execution
-            ):
+            if current != expected_last_execution:
                 return False
             conn.execute(
                 f"UPDATE {self.tables.CONDITIONS} SET last_cron_execution = ? WHERE condition_id = ?",
